@@ -301,3 +301,6 @@ for _p in ("C01", "C19"):
 PROPS["C11"]["e2"] += [E("partition", "p_parblock", "lemma_partition")]
 PROPS["C06"]["e2"] += [E("copy_node", "p_libfs", "lemma_copy_node")]
 PROPS["C10"]["e2"] += [E("copy_xattr", "p_libfs", "lemma_copy_xattr")]
+# CopyHandle::new decides what happens at the destination path itself (created through a dangling link? truncated?)
+for _p in ("C02", "C08"):
+    PROPS[_p]["e2"] += [E("handle_new", "p_handle", "lemma_handle_new")]
